@@ -93,6 +93,9 @@ def exec_case(fn, case, horizon):
         signal.signal(signal.SIGALRM, old)
 
 
+_WSEQ = [0]      # number of cases this process has executed (position of a case in the process' call history)
+
+
 def _worker(args):
     modname, fname, idx_cases, horizon = args
     fn = getattr(importlib.import_module(modname), fname)
@@ -100,6 +103,8 @@ def _worker(args):
     for idx, case in idx_cases:
         r = exec_case(fn, case, horizon)
         r['obs'] = _digest(r['obs'])
+        r['w'] = (os.getpid(), _WSEQ[0])
+        _WSEQ[0] += 1
         out.append((idx, r))
     return out
 
@@ -145,6 +150,9 @@ class Ctx:
         self.assumptions = []
         self.rules = []
         self.harness_errors = []
+        self.nondet = []          # cases whose observation differed between two processes (state carried between cases)
+        self.wlog = {}            # pid -> list of (seq, fn-name, case): execution history of every worker process
+        self.prefork = []         # cases executed in the coordinating process through run_case
         self.states = 0
         self.transitions = 0
         self.traces = 0
@@ -181,6 +189,9 @@ class Ctx:
     # -- running cases
     def _absorb(self, part, fn, case, r):
         self.evaluations += 1
+        w = r.get('w')
+        if w is not None:
+            self.wlog.setdefault(w[0], []).append((w[1], f'{fn.__module__}:{fn.__name__}', case))
         if r.get('harness_error'):
             self.harness_errors.append((part, repr(case)[:300], r['harness_error']))
             return
@@ -194,7 +205,7 @@ class Ctx:
         self.add_stats(r['stats'])
         for key, msg in r['viol']:
             self.viol.append({'part': part, 'key': key, 'msg': msg, 'case': case,
-                              'fn': f'{fn.__module__}:{fn.__name__}'})
+                              'fn': f'{fn.__module__}:{fn.__name__}', 'w': w})
 
     def pmap(self, part, fn, cases, horizon=20.0, chunk=None, sample_every=None, quiet=False, recheck=8):
         """run fn over all cases on the worker pool; deterministic merge in index order"""
@@ -221,8 +232,7 @@ class Ctx:
         for i, r in flat[:recheck]:
             r2 = exec_case(fn, cases[i], horizon)
             if _digest(r2['obs']) != r['obs'] and not r.get('harness_error'):
-                self.harness_errors.append((part, repr(cases[i])[:300],
-                                            'non-deterministic observation (two runs of the same case differ)'))
+                self.nondet.append((part, repr(cases[i])[:300]))
         for i, r in flat:
             self._absorb(part, fn, cases[i], r)
         return [r.get('payload') for _, r in flat]
@@ -230,6 +240,7 @@ class Ctx:
     def run_case(self, part, fn, case, horizon=60.0):
         r = exec_case(fn, case, horizon)
         r['obs'] = _digest(r['obs'])
+        self.prefork.append((f'{fn.__module__}:{fn.__name__}', case))
         self._absorb(part, fn, case, r)
         return r
 
@@ -273,6 +284,17 @@ def load_known():
     return json.load(open(p))['findings']
 
 
+def _history(ctx, v, cap=4000):
+    """call history of the process that executed the violating case (cases run before it, in order): lets `replay`
+    reproduce violations that need state carried between library calls"""
+    w = v.get('w')
+    if not w:
+        return None
+    hist = sorted((x for x in ctx.wlog.get(w[0], []) if x[0] < w[1]), key=lambda x: x[0])[-cap:]
+    full = [(f, c) for f, c in ctx.prefork] + [(f, c) for _, f, c in hist]
+    return base64.b64encode(pickle.dumps(full, protocol=4)).decode()
+
+
 def finish(ctx: Ctx, rule_nt: str):
     """write evidence + violation files, print lines, return exit code"""
     wall = time.time() - ctx.t0
@@ -301,7 +323,7 @@ def finish(ctx: Ctx, rule_nt: str):
         doc = {'property': ctx.pid, 'part': part, 'key': key, 'message': v['msg'], 'count': len(vs),
                'fn': v['fn'], 'case': _jsonable(v['case']), 'case_repr': repr(v['case'])[:4000],
                'case_pickle_b64': base64.b64encode(pickle.dumps(v['case'], protocol=4)).decode(),
-               'seed': ctx.seed, 'tier': ctx.tier,
+               'seed': ctx.seed, 'tier': ctx.tier, 'history_pickle_b64': _history(ctx, v),
                'replay_cmd': f'cd /verif && /venv/bin/python -m mcx replay {path}'}
         json.dump(doc, open(path, 'w'), indent=1)
         lines.append(f'VIOLATION property={ctx.pid} replay={path}')
@@ -340,10 +362,17 @@ def finish(ctx: Ctx, rule_nt: str):
           f'states={ctx.states} transitions={ctx.transitions} distinct_outcomes={len(ctx.outcomes)} '
           f'nontrivial={len(ctx.nt_tags)} exhaustive={ctx.exhaustive} wall={wall:.1f}s '
           f'violations={len(bykey)} known={len(seen_known)}', flush=True)
+    if ctx.nondet:
+        for part, case in ctx.nondet[:3]:
+            print(f'HISTORY-DEPENDENT [{part}] case={case}: the same case observed in two different processes gave different '
+                  f'library results (state carried between library calls)', file=sys.stderr)
     if ctx.harness_errors:
         for part, case, tb in ctx.harness_errors[:5]:
             print(f'HARNESS-ERROR [{part}] case={case}\n{tb}', file=sys.stderr)
-        print(f'[{ctx.pid}] {len(ctx.harness_errors)} harness error(s): result not trustworthy', file=sys.stderr)
+    if (ctx.harness_errors or ctx.nondet) and not lines:
+        # nothing attributable to the property was found, but the run is not trustworthy
+        print(f'[{ctx.pid}] {len(ctx.harness_errors)} harness error(s), {len(ctx.nondet)} history-dependent case(s): '
+              f'result not trustworthy', file=sys.stderr)
         return 2
     for l in lines:
         print(l)
@@ -407,6 +436,13 @@ def main(argv=None):
         print('replaying', doc['property'], doc['part'], doc['key'])
         print('case:', repr(case)[:2000])
         r = exec_case(fn, case, 120.0)
+        if not any(k == doc['key'] for k, _ in r['viol']) and doc.get('history_pickle_b64'):
+            hist = pickle.loads(base64.b64decode(doc['history_pickle_b64']))
+            print(f'not reproduced from the initial state; replaying the {len(hist)} case(s) the process executed before it')
+            for f, c in hist:
+                m, n = f.split(':')
+                exec_case(getattr(importlib.import_module(m), n), c, 120.0)
+            r = exec_case(fn, case, 120.0)
         if r.get('harness_error'):
             print(r['harness_error'])
             sys.exit(2)
